@@ -7,6 +7,7 @@ require (
 	github.com/google/uuid v1.6.0
 	github.com/tochemey/goakt/v4 v4.0.0-00010101000000-000000000000
 	golang.org/x/tools v0.50.0
+	google.golang.org/protobuf v1.36.12-0.20260120151049-f2248ac996af
 )
 
 require (
@@ -66,7 +67,6 @@ require (
 	golang.org/x/net v0.59.0 // indirect
 	golang.org/x/sync v0.23.0 // indirect
 	golang.org/x/sys v0.48.0 // indirect
-	google.golang.org/protobuf v1.36.12-0.20260120151049-f2248ac996af // indirect
 )
 
 replace github.com/tochemey/goakt/v4 => /repo
